@@ -15,7 +15,7 @@ import (
 func init() {
 	register(&Pack{ID: "C06", Run: runC06, Meta: core.Meta{
 		Level:       "other",
-		Explanation: "Pairing / typestate / ownership rules over the cut-point paths (engine P) of every goroutine a pipe stage spawns, each analysed with the memory snapshot of its go statement: every made channel has exactly one closing goroutine and is closed exactly once on every exit path after the last send (or after wg.Wait in the worker-pool form, with wg.Done after the last send of each counted sender and wg.Add equal to the number of spawned senders); every blocking operation is the range over the stage's input, an arm of a select that has a <-ctx.Done() arm of the stage's own context whose continuation exits without blocking again, a send with a capacity proof, or wg.Wait; every loop iteration passes a cancellation point and has an exit; the false edge of the catch role exits; no goroutine panics, closes twice or closes a foreign channel; nothing is delivered on a stage output after a cancellation was observed. The behavioural claim (termination and closure for every interleaving) follows on paper from these shape facts; it is not observed at run time.",
+		Explanation: "Pairing / typestate / ownership rules over the cut-point paths (engine P) of every goroutine a pipe stage spawns, each analysed with the memory snapshot of its go statement: every made channel has exactly one closing goroutine and is closed exactly once on every exit path after the last send (or after wg.Wait in the worker-pool form, with wg.Done after the last send of each counted sender and wg.Add equal to the number of spawned senders); every blocking operation is the range over the stage's input, an arm of a select that has a <-ctx.Done() arm of the stage's own context whose continuation exits without blocking again, a send with a capacity proof, or wg.Wait; every loop iteration passes a cancellation point and has an exit; the false edge of the catch role exits; no goroutine panics, closes twice or closes a foreign channel; nothing is delivered on a stage output after a cancellation was observed. The behavioural claim (termination and closure for every interleaving) follows on paper from these shape facts; it is not observed at run time. caller-slice-read: no goroutine of a stage indexes or ranges over a slice parameter of the stage function (the caller owns it again after the call). no-panic-source also rejects an integer division whose divisor is not excluded from being zero by an earlier branch (of the path, of the segments before its loop head, or of the spawning function). errch-request: the capacity requested from errch derives from cap(in) / the capacity parameter, never from len of a channel.",
 		RuleText:    "one obligation per (rule, goroutine/channel/blocking site); all sites of all stage constructors of package pipe are enumerated",
 		Assumptions: []string{"inputs are eventually closed (premise of the property)", "pipe.New (unbounded channel) is covered by C08, not here"},
 		TrustedBase: []string{"go/ssa", "path engine P", "Go channel/select/defer semantics"},
